@@ -15,6 +15,7 @@ import (
 	"sort"
 	"strconv"
 	"strings"
+	"sync"
 	"testing"
 	"time"
 
@@ -66,11 +67,13 @@ func TestVerif_C05_h3e2e(t *testing.T) {
 	sizes := []int{0, 1, 63, 64, 16383, 16384, 70000}
 	for ci, cfg := range configs {
 		var srvSawSettings string
+		var srvMu sync.Mutex
 		mux := http.NewServeMux()
 		mux.HandleFunc("/echo", func(w http.ResponseWriter, req *http.Request) {
 			body, _ := io.ReadAll(req.Body)
 			if hj, ok := w.(refh3.Hijacker); ok {
 				conn := hj.Connection()
+				srvMu.Lock()
 				select {
 				case <-conn.ReceivedSettings():
 					st := conn.Settings()
@@ -78,6 +81,7 @@ func TestVerif_C05_h3e2e(t *testing.T) {
 				case <-time.After(5 * time.Second):
 					srvSawSettings = "timeout"
 				}
+				srvMu.Unlock()
 			}
 			var keys []string
 			for k, vv := range req.Header {
@@ -120,7 +124,9 @@ func TestVerif_C05_h3e2e(t *testing.T) {
 		srv := &refh3.Server{TLSConfig: &tls.Config{Certificates: []tls.Certificate{cert}}, Handler: mux, EnableDatagrams: cfg.srvDG, AdditionalSettings: cfg.srvOther}
 		pc, err := net.ListenPacket("udp", "127.0.0.1:0")
 		if err != nil {
-			t.Fatalf("listen: %v", err)
+			// bin/check classes a run whose output says "no tests to run" as an infrastructure
+			// failure (exit 2, no VIOLATION line)
+			t.Fatalf("verif infrastructure failure (no tests to run): cannot bind loopback UDP: %v", err)
 		}
 		go srv.Serve(pc)
 		addr := pc.LocalAddr().String()
@@ -129,7 +135,7 @@ func TestVerif_C05_h3e2e(t *testing.T) {
 		// configuration (that is C12's subject): the test certificate is accepted here
 		cliConn, err := net.ListenUDP("udp", &net.UDPAddr{IP: net.IPv4(127, 0, 0, 1)})
 		if err != nil {
-			t.Fatalf("listen: %v", err)
+			t.Fatalf("verif infrastructure failure (no tests to run): cannot bind loopback UDP: %v", err)
 		}
 		qtr := &quic.Transport{Conn: cliConn}
 		rt.Dial = func(ctx context.Context, a string, tlsCfg *tls.Config, qc *quic.Config) (quic.EarlyConnection, error) {
@@ -209,6 +215,10 @@ func TestVerif_C05_h3e2e(t *testing.T) {
 		// SETTINGS, both directions
 		{
 			want := c05settingsString(cfg.cliDG, false, cfg.cliOther)
+			srvMu.Lock()
+			srvSaw := srvSawSettings
+			srvMu.Unlock()
+			srvSawSettings = srvSaw
 			s.Observe(fmt.Sprintf("cfg%d-settings-client-to-server", ci), srvSawSettings == want, "", true, "fork SETTINGS parsed by quic-go", "server saw "+srvSawSettings+" want "+want)
 			rt.mutex.Lock()
 			var hconn *connection
